@@ -760,7 +760,9 @@ def run_big(case: dict):
 
 def enum_faults(tier):
     """Every statement boundary (error and crash) of a fixed set of operation instances."""
-    store = [["example.org", 1965, FPS[0]], ["::1", 1965, FPS[1]], ['quo"te', 300, FPS[2]]]
+    # one host name pinned on three ports: an operation that names the host (revoke-host) has several rows to change at once
+    store = [["example.org", 1965, FPS[0]], ["::1", 1965, FPS[1]], ['quo"te', 300, FPS[2]], ["example.org", 1966, FPS[1]],
+             ["example.org", 1967, FPS[0]]]
     ents3 = [["new1.example", 1965, FPS[0]], ["example.org", 1965, FPS[1]], ["new2.example", 1966, FPS[2]]]
     ops = [
         {"op": "import", "merge": False, "entries": ents3, "defect": None, "pos": 0, "cb": None},
